@@ -638,7 +638,7 @@ func TestVerifC19DeviceReplay(t *testing.T) {
 		next := 0
 		var hist []string
 		dead := false
-		sawVF, sawMultiType, sawMultiDev, sawShareDev, sawDup, sawTerminated, sawSelfEvent, sawLate, sawResv, sawID := false, false, false, false, false, false, false, false, false, false
+		sawVF, sawMultiType, sawMultiDev, sawShareDev, sawDup, sawTerminated, sawPodFinished, sawSelfEvent, sawLate, sawResv, sawID := false, false, false, false, false, false, false, false, false, false, false
 		maxLive, checks := 0, 0
 
 		bound := func() []types.UID {
@@ -855,7 +855,11 @@ func TestVerifC19DeviceReplay(t *testing.T) {
 				delete(model, u)
 				hist = append(hist, fmt.Sprintf("delete %s (%s)", u, how))
 			},
-			"terminate": func(t *rapid.T) {
+			// A pod that finishes (phase Succeeded/Failed) leaves the scheduler's pod informer, which carries the field
+			// selector status.phase!=Succeeded,status.phase!=Failed (scheduler.NewInformerFactory): every handler gets a
+			// DELETE and a restarted scheduler never sees the object. The Reservation informer is unfiltered: a consumed
+			// or expired Reservation stays in the API server and is delivered with its terminal phase.
+			"finish": func(t *rapid.T) {
 				if dead {
 					return
 				}
@@ -865,20 +869,29 @@ func TestVerifC19DeviceReplay(t *testing.T) {
 				}
 				u := rapid.SampledFrom(uids).Draw(t, "uid")
 				old := persisted[u]
-				n := old.copy()
-				how := ""
-				if n.Resv != nil {
+				if old.Resv != nil {
+					n := old.copy()
 					n.Resv.Status.Phase = rapid.SampledFrom([]schedulingv1alpha1.ReservationPhase{schedulingv1alpha1.ReservationSucceeded, schedulingv1alpha1.ReservationFailed}).Draw(t, "resvPhase")
-					how = string(n.Resv.Status.Phase)
-				} else {
-					n.Pod.Status.Phase = rapid.SampledFrom([]corev1.PodPhase{corev1.PodSucceeded, corev1.PodFailed}).Draw(t, "phase")
-					how = string(n.Pod.Status.Phase)
+					live.update(old, n)
+					persisted[u] = n
+					delete(model, u)
+					sawTerminated = true
+					hist = append(hist, fmt.Sprintf("finish reservation %s (%s, object stays)", u, n.Resv.Status.Phase))
+					return
 				}
-				live.update(old, n)
-				persisted[u] = n
+				phase := rapid.SampledFrom([]corev1.PodPhase{corev1.PodSucceeded, corev1.PodFailed}).Draw(t, "phase")
+				tomb := rapid.IntRange(0, 3).Draw(t, "tombstone") == 0
+				last := old.copy() // the last state the filtered informer knew: still running
+				live.delete(last, tomb)
+				how := "pod-finished"
+				if tomb {
+					how += "-tombstone"
+				}
+				deletedHow[old.key()] = how
+				delete(persisted, u)
 				delete(model, u)
-				sawTerminated = true
-				hist = append(hist, fmt.Sprintf("terminate %s (%s)", u, how))
+				sawPodFinished = true
+				hist = append(hist, fmt.Sprintf("finish pod %s (%s): delivered as delete (%s), object leaves the informer", u, phase, how))
 			},
 			"touch": func(t *rapid.T) {
 				if dead {
@@ -918,7 +931,8 @@ func TestVerifC19DeviceReplay(t *testing.T) {
 		c.ClassIf(sawShareDev, "device-shared-by-two-holders")
 		c.ClassIf(sawID, "device-id-filled")
 		c.ClassIf(sawDup, "duplicate-or-noop-event")
-		c.ClassIf(sawTerminated, "terminated-object-persisted")
+		c.ClassIf(sawTerminated, "finished-reservation-persisted")
+		c.ClassIf(sawPodFinished, "pod-finished(delivered-as-delete)")
 		c.ClassIf(sawSelfEvent, "live-saw-own-bind-event")
 		c.ClassIf(sawLate, "pod-event-before-device-report")
 		c.ClassIf(sawResv, "reservation-object-persisted")
